@@ -73,8 +73,15 @@ class _SSHAuthorizedKeyEntry(OptionsParser):
             pass
 
         try:
-            self.cert = cast(SSHX509Certificate,
-                             import_certificate(key_data))
+            cert = import_certificate(key_data)
+
+            # Only X.509 certificates can be listed here. An OpenSSH
+            # certificate is not something an entry can be matched against
+            if not cert.is_x509:
+                raise KeyImportError('OpenSSH certificates not allowed '
+                                     'in authorized keys')
+
+            self.cert = cast(SSHX509Certificate, cert)
 
             if ('cert-authority' in self.options and
                     self.cert.subject != self.cert.issuer):
